@@ -42,22 +42,29 @@ type splitClient struct {
 	Name   string   `json:"name"`
 	Kind   string   `json:"kind"` // auth | base | fetch
 	Extras []string `json:"protocols"`
+	// Pref: where an authenticating client puts the library's certificate-preference entry:
+	// "" last (as the library builds the list) | first | before-extras
+	Pref string `json:"certificate_preference_position,omitempty"`
 }
 
 var splitClients = []splitClient{
-	{"auth-none", "auth", nil},
-	{"auth-A", "auth", []string{"A"}},
-	{"auth-B-A", "auth", []string{"B", "A"}},
-	{"auth-C", "auth", []string{"C"}},
-	{"auth-__AUTH__", "auth", []string{"__AUTH__"}},
-	{"auth-__UNAUTH__", "auth", []string{"__UNAUTH__"}},
-	{"base-none", "base", nil},
-	{"base-h2", "base", []string{"h2"}},
-	{"base-A", "base", []string{"A"}},
-	{"base-reserved", "base", []string{"__AUTH__", "__UNAUTH__"}},
-	{"base-B-then-__AUTH__", "base", []string{"B", "__AUTH__"}},
-	{"base-certpref", "base", []string{nodeenrollment.CertificatePreferenceV1Prefix + "zzz", "A"}},
-	{"fetch-only", "fetch", nil},
+	{Name: "auth-A-pref-first", Kind: "auth", Extras: []string{"A"}, Pref: "first"},
+	{Name: "auth-B-A-pref-before-extras", Kind: "auth", Extras: []string{"B", "A"}, Pref: "before-extras"},
+	{Name: "auth-C-pref-before-extras", Kind: "auth", Extras: []string{"C"}, Pref: "before-extras"},
+	{Name: "auth-none-pref-first", Kind: "auth", Pref: "first"},
+	{Name: "auth-none", Kind: "auth", Extras: nil},
+	{Name: "auth-A", Kind: "auth", Extras: []string{"A"}},
+	{Name: "auth-B-A", Kind: "auth", Extras: []string{"B", "A"}},
+	{Name: "auth-C", Kind: "auth", Extras: []string{"C"}},
+	{Name: "auth-__AUTH__", Kind: "auth", Extras: []string{"__AUTH__"}},
+	{Name: "auth-__UNAUTH__", Kind: "auth", Extras: []string{"__UNAUTH__"}},
+	{Name: "base-none", Kind: "base", Extras: nil},
+	{Name: "base-h2", Kind: "base", Extras: []string{"h2"}},
+	{Name: "base-A", Kind: "base", Extras: []string{"A"}},
+	{Name: "base-reserved", Kind: "base", Extras: []string{"__AUTH__", "__UNAUTH__"}},
+	{Name: "base-B-then-__AUTH__", Kind: "base", Extras: []string{"B", "__AUTH__"}},
+	{Name: "base-certpref", Kind: "base", Extras: []string{nodeenrollment.CertificatePreferenceV1Prefix + "zzz", "A"}},
+	{Name: "fetch-only", Kind: "fetch", Extras: nil},
 }
 
 type delivery struct {
@@ -157,6 +164,26 @@ func runSplitCase(c *engine.Ctx, s *world.Server, node *world.Node, sc splitCase
 				continue
 			}
 			cfg = cfgs[0]
+			if cl.Pref != "" {
+				cfg = cfg.Clone()
+				var pref string
+				var rest []string
+				for _, e := range cfg.NextProtos {
+					if strings.HasPrefix(e, nodeenrollment.CertificatePreferenceV1Prefix) && pref == "" {
+						pref = e
+						continue
+					}
+					rest = append(rest, e)
+				}
+				switch {
+				case pref == "":
+				case cl.Pref == "first":
+					cfg.NextProtos = append([]string{pref}, rest...)
+				default:
+					k := len(rest) - len(cl.Extras)
+					cfg.NextProtos = append(append(append([]string{}, rest[:k]...), pref), rest[k:]...)
+				}
+			}
 		case "base":
 			cfg = &tls.Config{NextProtos: cl.Extras, InsecureSkipVerify: true, MinVersion: tls.VersionTLS12}
 		case "fetch":
